@@ -88,7 +88,9 @@ static int longbufs(unsigned long seed, int n, size_t maxlen)
 	rs = seed * 2654435761u + 88172645463325252ull;
 	for (int it = 0; it < n; it++) {
 		int al = it % 8;
-		size_t len = (it < 64) ? (size_t) it : rnd() % (maxlen + 1);
+		/* lengths around the sizes at which a narrower counter would wrap, then random ones */
+		static const size_t edge[] = { 255, 256, 257, 32767, 32768, 32769, 65535, 65536, 65537, 65538, 70000, 131071, 131072, 131073 };
+		size_t len = (it < 64) ? (size_t) it : (it - 64 < (int) (sizeof edge / sizeof edge[0]) && edge[it - 64] <= maxlen) ? edge[it - 64] : rnd() % (maxlen + 1);
 		uint8_t *buf = (uint8_t *) ((((uintptr_t) raw + 7) & ~(uintptr_t) 7) + al);
 		unsigned init = rnd() & 0xffff, want = init;
 		for (size_t i = 0; i < len; i++) { buf[i] = rnd() & 0xff; want = tstep(want, buf[i]); }
